@@ -74,8 +74,8 @@ def run(ctx):
     base2 = {"version": "203", "ofxheader": "200", "security": "NONE", "oldfileuid": "NONE", "newfileuid": "NONE"}
     dom = {"data": ["OFXSGML", "OFXXML", "ofxsgml"], "security": ["NONE", "TYPE1", "TYPE2"],
            "encoding": ["USASCII", "UNICODE", "UTF-8", "UTF8", "LATIN1"], "charset": ["ISO-8859-1", "1252", "NONE", "UTF-8", "8859-1"],
-           "compression": ["NONE", "GZIP"], "ofxheader": ["100", "200", "101", "x"],
-           "version": ["102", "103", "151", "160", "199", "100", "1020", "1x", "200", "203", "220", "204", "221", "2030"],
+           "compression": ["NONE", "GZIP"], "ofxheader": ["100", "200", "101", "x", "0", "00", "000", "1", "99", "201", "0100", "0200"],
+           "version": ["102", "103", "151", "160", "199", "100", "1020", "1x", "200", "203", "220", "204", "221", "2030", "0", "000", "0102"],
            "oldfileuid": ["NONE", "a" * 36, "a" * 37], "newfileuid": ["NONE", "z" * 36, "z" * 37]}
     for kind, base in ((1, base1), (2, base2)):
         for fld in base:
@@ -86,6 +86,16 @@ def run(ctx):
                 evs.append(e)
                 k += 1
                 ctx.nontrivial.add(("ctor", kind, fld, val, e["out"]["st"]))
+                # the same fields as a file, through the real parser
+                if kind == 1:
+                    head = "".join("%s:%s\r\n" % (n_.upper(), f[n_]) for n_ in ("ofxheader", "data", "version", "security", "encoding", "charset",
+                                                                               "compression", "oldfileuid", "newfileuid")) + "\r\n"
+                else:
+                    head = ('<?xml version="1.0" encoding="UTF-8" standalone="no"?>\r\n<?OFX ' +
+                            " ".join('%s="%s"' % (n_.upper(), f[n_]) for n_ in ("ofxheader", "version", "security", "oldfileuid", "newfileuid")) + "?>\r\n")
+                e = hc.ev_parse("kp%d" % k, head.encode("ascii") + BODY)
+                evs.append(e)
+                ctx.nontrivial.add(("file", kind, fld, val, e["out"]["st"]))
     ctx.exhaustive = True
     ctx.evaluations = len(evs)
     for e in evs[:1] + evs[-2:]:
